@@ -345,6 +345,10 @@ def run_harness(exe, tmpl, work, name, lines, user_yaml=None):
 
 def run(ctx):
     rows_api = session_api.generate()
+    # the cone of Properties_C16.v (Svc/EngInstance over Eng) reads the generated key maps and engine facts too
+    import keymaps, eng_facts
+    keymaps.generate()
+    eng_facts.generate()
     ctx.coverage["translated_session_functions"] = [{"fn": n, "kind": k, "why": w} for n, k, w in rows_api]
     ctx.coverage["trusted_base"] = [
         "Coq 8.16.1 kernel + vm_compute (sweep over the generated function list); no native_compute",
